@@ -1700,12 +1700,21 @@ fn c11_damage(r: &Rng, progs: &[Prog], pat: &[u8], pmt: &[u8], p0: &Prog, target
         3 => { if damaged_pk.len() > 1 { damaged_pk.truncate(1 + r.below((damaged_pk.len() - 1) as u64) as usize); } }
         _ => {}
     }
+    // dmg 4: the continuation packets of the damaged transmission are delayed and arrive only AFTER
+    // the intact transmission (re-ordering / late tail)
+    let mut late: Vec<Vec<u8>> = vec![];
+    if dmg == 4 && damaged_pk.len() > 1 { late = damaged_pk.split_off(1); }
     all.extend(damaged_pk);
     let intact = if same_version { sec.clone() } else {
         let mut s2 = sec.clone(); s2[5] = (s2[5] & 0xc1) | ((((s2[5] >> 1) & 31).wrapping_add(1) & 31) << 1);
         let l = s2.len(); s2.truncate(l - 4); with_crc(s2)
     };
-    for _ in 0..(1 + r.below(3)) { all.extend(m.section(pid, &intact, &plan_for(r, &intact))); }
+    for k in 0..(1 + r.below(3)) {
+        // the intact copy is sometimes forced into a single packet / several packets
+        let plan = if dmg == 4 && k == 0 && intact.len() <= 183 { simple_plan(intact.len()) } else { plan_for(r, &intact) };
+        all.extend(m.section(pid, &intact, &plan));
+        if k == 0 { all.extend(late.drain(..)); }
+    }
     let pp: Vec<u16> = p0.streams.iter().map(|s| s.1).chain(std::iter::once(p0.pmt_pid)).collect();
     all.extend(probes(&mut m, &pp));
     all
@@ -1720,7 +1729,7 @@ fn gen_c11(tier: &str, r: &Rng, o: &mut Out<'_>) {
         let pmt = pmt_of(&p0);
         for &target_pat in [true, false].iter() {
             for &same_version in [true, false].iter() {
-                for dmg in 0..4 {
+                for dmg in 0..5 {
                     let all = c11_damage(r, &progs, &pat, &pmt, &p0, target_pat, same_version, dmg);
                     let body = format!("demux b0t0 {}", hex(&concat(&all)));
                     // same-version-as-damaged-start is the recorded finding F2; everything else is decisive
@@ -1730,7 +1739,7 @@ fn gen_c11(tier: &str, r: &Rng, o: &mut Out<'_>) {
         }
     }
     mixed_scenarios(tier, r, o, "C11");
-    o.meta("plans", "each table x {bit flip, lost continuation, early restart, truncation} x following intact transmission (same / different version) x optional previously applied version");
+    o.meta("plans", "each table x {bit flip, lost continuation, early restart, truncation, late tail after the intact copy} x following intact transmission (same / different version) x optional previously applied version");
 }
 
 /// a small sample of every scenario family, appended to each stateful property's own cases: a
@@ -1748,7 +1757,7 @@ fn mixed_scenarios(tier: &str, r: &Rng, o: &mut Out<'_>, skip: &str) {
                 let p0 = { let mut p = progs[0].clone(); for _ in 0..(12 + r.below(40)) { p.prog_desc.extend(rand_desc(r)); } p };
                 let pmt = pmt_of(&p0);
                 let same = r.chance(1, 2);
-                (c11_damage(r, &progs, &pat, &pmt, &p0, r.chance(1, 2), same, r.below(4) as usize), !same)
+                (c11_damage(r, &progs, &pat, &pmt, &p0, r.chance(1, 2), same, r.below(5) as usize), !same)
             }
             3 => (psi_torture(r), false),
             4 => (dispatcher_stream(r, 10 + r.below(30) as usize, true), true),
